@@ -320,6 +320,16 @@ def run(ctx):
     rule_T2(ctx)
     rule_T4(ctx)
     rule_T3(ctx)
+    # "complete trees": no move loses a data point (C07.L1); "finite log_p_one": non-positive convolution
+    # entries are floored before the logarithm on both back ends (C02.N4)
+    from . import C02, C07
+    from ..effects import TreeFx
+
+    from ..formula import imported
+
+    ctx._own_rules = set(ctx.rule_min)
+    imported(ctx, C07.rule_L1, TreeFx(ctx.prog))
+    imported(ctx, C02.rule_N4)
 
 
 _PG = "phyclone/mcmc/particle_gibbs.py"
